@@ -50,7 +50,7 @@ def sh(cmd, cwd=None, timeout=None, mem=True, env=None):
 # ------------------------------------------------------------------ known findings
 def load_known():
     known, fixed = {}, []
-    p = os.path.join(ROOT, "known_findings.txt")
+    p = os.environ.get("VF_KNOWN_FILE") or os.path.join(ROOT, "known_findings.txt")   # override: development only (trying a candidate fix)
     if os.path.exists(p):
         for ln in open(p):
             ln = ln.strip()
